@@ -59,6 +59,11 @@ var jsFiles = [][]string{
 	{"{namespace a}\n/** @param x\n @param l */\n{template .t}\n{let $m: ['z': 1, 'y': $x, 'x': [1, 2], 'w': 'q'] /}{$m}{keys(['b': 1, 'a': 2])}{G_MAP}{G_STR}{$m['404']}{$m['1st']}{$m['ok_key']}{$m['a-b']}{$x.0}{$x?.k[0]}{$x['k']?.z}{foreach $i in $l}{$i}{index($i)}{/foreach}\n{/template}\n"},
 	// 2: messages, incl. colliding placeholder base names
 	{"{namespace a}\n/** @param x\n @param y\n @param y_1 */\n{template .t}\n{msg desc=\"d\"}Hello <b>{$x}</b> {$x.y}{$y.y}{$y_1}{/msg}{msg desc=\"e\"}{plural $x}{case 1}one{default}{$x} many{/plural}{/msg}\n{/template}\n"},
+	// 3: namespaces whose later segments repeat (or are substrings of) earlier parts of the name
+	{"{namespace app.pages.page}\n/** */\n{template .t}\nx{call shop.cart.shop.u/}\n{/template}\n",
+		"{namespace shop.cart.shop}\n/** */\n{template .u}\nu{call com.example.x.com.v/}\n{/template}\n",
+		"{namespace com.example.x.com}\n/** */\n{template .v}\nv\n{/template}\n",
+		"{namespace aa.a.aaa.a}\n/** */\n{template .w}\nw\n{/template}\n"},
 }
 
 var jsGlobals = data.Map{"G_MAP": data.Map{"k2": data.Int(2), "k1": data.String("v"), "k3": data.List{data.Int(1)}}, "G_STR": data.String("s")}
